@@ -7,7 +7,7 @@ from .. import graphcases as GC
 from .. import scenario
 from . import c03
 
-TEMPLATES = ['se2fix', 'se3fix', 'r3fixlm', 'se2allfix', 'r2iso', 'se3far', 'se2far', 'mixed', 'r2', 'se3c', 'se2shared', 'r3shared', 'se2big', 'se2plain', 'se3reg', 'se3rough', 'se2pair']
+TEMPLATES = ['se2fix', 'se3fix', 'r3fixlm', 'se2allfix', 'r2iso', 'se3far', 'se2far', 'mixed', 'r2', 'se3c', 'se2shared', 'r3shared', 'se2big', 'se2plain', 'se3reg', 'se3rough', 'se2pair', 'se2desc', 'se3desc']
 
 
 def gen(tier, seed):
